@@ -11,6 +11,20 @@ def check_c13(ctx):
         r = core.run_tlc(ctx, "CookMeta", f"CookMeta_{conv}.cfg", workers=8, strata=((r'pred\\":\{\\"t\\":\\"([a-z]+)', 3000) if ctx.tier == "quick" else None))
         ctx.model_violation(r)
         recs += r.replay
+    none = dict(t="none")
+    # a converter whose minutes cannot be found under an English key while `m` is the metre: number-unit durations are all
+    # out of form there (lengths included); plain minutes and the compact form do not need units
+    for key in ("time", "prep time", "cook time", "duration"):
+        for style in ("old", "yaml"):
+            for v, pred in [("2 km", none), ("90 m", none), ("30 feet", none), ("5 metros", none), ("10 minutos", none), ("1 hora 5 mn", none),
+                            ("45", dict(t="minutes", n="45")), ("1h30m", dict(t="minutes", n="90"))]:
+                recs.append(dict(conv="nominutes", key=key, style=style, val=[v], pred=pred, number=(v == "45")))
+    # an out-of-form total time next to valid prep / cook times: still nothing from the accessors
+    for conv in ("bundled", "empty"):
+        for style in ("old", "yaml"):
+            for v in ["soon", "1h30", "-5", "99999999999 min", "[1, 2]" if style == "yaml" else "1 2 3"]:
+                for extra in ([["prep time", "10 min"]], [["cook time", "20 min"]], [["prep time", "10 min"], ["cook time", "1h"]]):
+                    recs.append(dict(conv=conv, key="time", style=style, val=[v], pred=none, number=False, extra=extra))
     pin = os.path.join(ctx.work, "meta_in.ndjson")
     pout = os.path.join(ctx.work, "meta_obs.ndjson")
     core.write_ndjson(pin, recs)
@@ -44,6 +58,20 @@ def check_c13(ctx):
 def replay_c13(ctx, case):
     core.build_harness()
     c = case["case"]
+    none = dict(t="none")
+    # a converter whose minutes cannot be found under an English key while `m` is the metre: number-unit durations are all
+    # out of form there (lengths included); plain minutes and the compact form do not need units
+    for key in ("time", "prep time", "cook time", "duration"):
+        for style in ("old", "yaml"):
+            for v, pred in [("2 km", none), ("90 m", none), ("30 feet", none), ("5 metros", none), ("10 minutos", none), ("1 hora 5 mn", none),
+                            ("45", dict(t="minutes", n="45")), ("1h30m", dict(t="minutes", n="90"))]:
+                recs.append(dict(conv="nominutes", key=key, style=style, val=[v], pred=pred, number=(v == "45")))
+    # an out-of-form total time next to valid prep / cook times: still nothing from the accessors
+    for conv in ("bundled", "empty"):
+        for style in ("old", "yaml"):
+            for v in ["soon", "1h30", "-5", "99999999999 min", "[1, 2]" if style == "yaml" else "1 2 3"]:
+                for extra in ([["prep time", "10 min"]], [["cook time", "20 min"]], [["prep time", "10 min"], ["cook time", "1h"]]):
+                    recs.append(dict(conv=conv, key="time", style=style, val=[v], pred=none, number=False, extra=extra))
     pin = os.path.join(ctx.work, "meta_in.ndjson")
     pout = os.path.join(ctx.work, "meta_obs.ndjson")
     core.write_ndjson(pin, [dict(key=c["key"], val=c["val"], style=c["style"], conv=c["conv"], pred=c["pred"])])
